@@ -26,13 +26,15 @@ def run(ctx):
     ]
     if ctx.replay:
         ctx.tie("replay", [h, "run", ctx.replay], [drv]); return
+    # every case runs in a worker process with a watchdog: a hang is reported as ioc:resolve-hang, a
+    # process death (stack overflow) as ioc:resolve-crash — both are violations of "a panic, not a hang"
     ctx.tie("known-findings", [h, "run", os.path.join(VERIF, "findings", "C18_F16.case")], [drv])
     corpus = os.path.join(VERIF, "corpus", "ioc")
     if os.path.isdir(corpus):
         for f in sorted(os.listdir(corpus)):
             if f.endswith(".case"):
                 ctx.tie("corpus-" + f[:-5], [h, "run", os.path.join(corpus, f)], [drv])
-    n = 2400 if ctx.quick else 60000
+    n = 1600 if ctx.quick else 60000
     ctx.tie("ioc-differential", [h, "gen", "--seed", str(ctx.seed), "--cases", str(n), "--tier", ctx.tier], [drv])
-    m = 1500 if ctx.quick else 40000
+    m = 600 if ctx.quick else 20000
     ctx.tie("ioc-thread-stress", [h, "stress", "--seed", str(ctx.seed), "--cases", str(m), "--tier", ctx.tier], [drv])
